@@ -153,6 +153,9 @@ class Session:
             rawhdr=bool(c.h11_pass_raw_headers),
             tls=self.carrier == "h2",
             root_path=c.root_path,
+            client="10.1.2.3:45678",
+            server="10.9.8.7:8080",
+            autoack=bool(self.script.get("autoack", True)),
         )
         for cr in self.script.get("creqs", []):
             self.trace.log("c_req", **cr)
